@@ -24,9 +24,9 @@ type mustCallEntry struct {
 }
 
 var mustCallTable = []mustCallEntry{
-	{Pkg: pkgSystem, Recv: "System", Func: "Tick", Calls: []string{"scheduler.RunUntilBlocked", "aio.Flush"},
+	{Pkg: pkgSystem, Recv: "System", Func: "Tick", Calls: []string{"aio.DequeueCQE", "api.DequeueSQE", "scheduler.RunUntilBlocked", "aio.Flush"},
 		Order: [][2]string{{"api.DequeueSQE", "scheduler.RunUntilBlocked"}, {"scheduler.RunUntilBlocked", "aio.Flush"}},
-		Why:   "C11/C12: every tick runs the scheduler and then flushes the submissions the coroutines yielded to the subsystems"},
+		Why:   "C11/C12: every tick takes the completions and the accepted requests out of the hand-over buffers and queues (Done() does not look into the buffers), runs the scheduler and then flushes the submissions the coroutines yielded to the subsystems"},
 	{Pkg: pkgSystem, Recv: "System", Func: "Loop", Calls: []string{"aio.Shutdown", "scheduler.Shutdown", "close(.shutdown)"},
 		Why: "C12: when the loop ends the subsystems are shut down and the waiters on the shutdown channel are released"},
 	{Pkg: pkgSystem, Recv: "System", Func: "Shutdown", Calls: []string{"api.Shutdown", "close(.shortCircuit)"}, Order: [][2]string{{"api.Shutdown", "close(.shortCircuit)"}},
